@@ -103,3 +103,34 @@ Example C19_transfer_example :
   transfer same_entry onp es [2; 3; 6]%nat = [(2%nat, TVal [5]); (3%nat, TTomb); (6%nat, TVal [9])] /\
   transfer same_entry onp es [1; 2; 5]%nat = [(1%nat, TVal [5]); (5%nat, TTomb)].
 Proof. vm_compute. repeat split. Qed.
+
+(* ---- the lineage reads above are the reads of the DAG resolver of C01 ---- *)
+From DV Require Import Proofs.TransferCore.
+From Coq Require Import Lia.
+
+(* For every parent structure, every placement of values / deletions, every chain-shaped lineage lin (each
+   version's only parent is the next element; ids descend towards the root) and every ascending list of
+   transmitted versions: after the transfer of the lineage's stored entries, the destination answers at every
+   transmitted version t of the lineage what Model.Resolve.read (the resolver whose correctness is C01)
+   answers at t on the source.  vb gives the bytes of a stored value. *)
+Theorem C19_transfer_agrees_with_resolver :
+  forall (par : V -> list V) (rank : V -> nat),
+    (forall v p, In p (par v) -> (rank p < rank v)%nat) ->
+  forall (ent : V -> option entry) (fi f : nat),
+    (forall x, (rank x < fi)%nat) -> (forall x, (rank x < f)%nat) ->
+  forall (vb : N -> bytes) lin ts t,
+    is_chain par lin -> desc lin -> (forall u, In u lin -> 0 < u) ->
+    ascending 0 ts = true -> In t lin -> In (N.to_nat t) ts ->
+    dst_read (transfer same_entry (fun _ => true) (es_of ent vb (rev lin)) ts) (N.to_nat t)
+    = rview vb (read par ent fi f t).
+Proof. exact transfer_agrees_with_resolver. Qed.
+Print Assumptions C19_transfer_agrees_with_resolver.
+
+Example C19_lineage_example :
+  let par := fun v : V => if v <=? 1 then [] else [v - 1] in
+  is_chain par [4; 3; 2; 1] /\ desc [4; 3; 2; 1] /\
+  (forall v p, In p (par v) -> (N.to_nat p < N.to_nat v)%nat).
+Proof.
+  split; [vm_compute; repeat split|]. split; [vm_compute; repeat split|].
+  intros v p. cbv beta. destruct (v <=? 1) eqn:E; [intros []|]. intros [<-|[]]. apply N.leb_gt in E. lia.
+Qed.
